@@ -151,6 +151,7 @@ End OptLoop.
 Arguments it_chi2 {T}. Arguments it_rel_diff {T}. Arguments it_complete {T}.
 Arguments initial_chi2 {T}. Arguments iters {T}. Arguments converged {T}.
 Arguments num_iterations {T}. Arguments final_chi2 {T}. Arguments raised {T}.
+Arguments t_iters {T}. Arguments t_conv {T}. Arguments t_num {T}. Arguments t_final {T}. Arguments t_lines {T}.
 Arguments out_state {T St}. Arguments out_report {T St}. Arguments out_lines {T St}.
 Arguments verbose_lines {T}. Arguments written_lines {T}.
 Arguments stepn {St}.
